@@ -736,7 +736,7 @@ func checkProperty(prop, tier string, seed uint64, runs, budget, workers int, re
 			// a candidate violation of the run in progress, to be confirmed alone; otherwise trouble
 			if fe := fatalErrorOf(stderr.String()); fe != "" && b >= 0 && livenessProps[prop] {
 				mu.Lock()
-				fatals = append(fatals, fatalRun{uint64(b), fe})
+				fatals = append(fatals, fatalRun{uint64(b), fe, append([]uint64{}, hist...)})
 				mu.Unlock()
 				return -(b + 2) // tell the caller where to resume
 			}
@@ -898,6 +898,12 @@ func checkProperty(prop, tier string, seed uint64, runs, budget, workers int, re
 		if again := replayFatal(bi, in, p, tmp, hangLimit); again == fr.what {
 			founds = append(founds, found{Run: fr.run, Case: caseJSON, V: v})
 			hangsConfirmed++
+		} else if h := crashHistory(bi, in, prop, seed, fr, caseJSON, v, tier, tmp, hangLimit); h != nil {
+			// the process dies in this run only after what earlier cases left behind in it (a leaked semaphore slot, say): the earlier
+			// cases are part of the replayable trace
+			fmt.Fprintf(os.Stderr, "check: run %d: the process is aborted (%s) only after %d earlier case(s) in the same process; the replay file lists them (process_history)\n", fr.run, fr.what, len(h))
+			founds = append(founds, found{Run: fr.run, Case: caseJSON, V: v, Hist: h, Tier: tier})
+			hangsConfirmed++
 		} else {
 			fmt.Fprintf(os.Stderr, "check: run %d: the process was aborted (%s) inside a long-lived worker but not when the run is executed alone\n", fr.run, fr.what)
 			hung = append(hung, fr.run)
@@ -1043,6 +1049,30 @@ func writeReplay(prop string, seed, runIdx uint64, c json.RawMessage, v sim.Viol
 type fatalRun struct {
 	run  uint64
 	what string
+	hist []uint64 // the runs the same worker process had executed before
+}
+
+// crashHistory looks for the shortest suffix of the worker's earlier runs after which the case makes the process die the same way
+// again (doubling the suffix length: at most log2(n)+1 replays). nil if even the whole history does not reproduce it.
+func crashHistory(bi *buildInfo, in *info, prop string, seed uint64, fr fatalRun, caseJSON json.RawMessage, v sim.Violation, tier, tmp string, limit time.Duration) []uint64 {
+	if len(fr.hist) == 0 {
+		return nil
+	}
+	try := func(h []uint64) bool {
+		p := writeReplayHist(prop, seed, fr.run, caseJSON, v, h, tier)
+		return replayFatal(bi, in, p, tmp, limit*time.Duration(1+len(h)/50)) == fr.what
+	}
+	for n := 4; ; n *= 4 {
+		if n >= len(fr.hist) {
+			if try(fr.hist) {
+				return fr.hist
+			}
+			return nil
+		}
+		if h := fr.hist[len(fr.hist)-n:]; try(h) {
+			return h
+		}
+	}
 }
 
 // fatalErrorOf extracts the Go runtime's fatal error line from a worker's stderr ("" if none).
@@ -1203,6 +1233,9 @@ func replayHangs(bi *buildInfo, in *info, file, tmp string, limit time.Duration)
 // result in a fresh process and returns the replay file.
 func minimiseAndReplay(bi *buildInfo, in *info, prop string, seed uint64, f found, tmp string) (string, bool) {
 	orig := writeReplay(prop, seed, f.Run, f.Case, f.V)
+	if f.V.Clause == "process-crash" && len(f.Hist) > 0 {
+		return writeReplayHist(prop, seed, f.Run, f.Case, f.V, f.Hist, f.Tier), true // confirmed with this history by crashHistory
+	}
 	if f.V.Clause == "hang" || f.V.Clause == "process-crash" {
 		// already confirmed by running alone; shrinking a non-terminating case would need a timeout per candidate
 		return orig, true
